@@ -39,7 +39,6 @@ theorem dStars_le : ∀ d : D, starsNtoks (dStars d) ≤ d.ntoks
 
 theorem IDc.fuel_linear {it : IDc} (hwf : WFI it) : it.fuel ≤ 14 * it.ntoks + 1 := by
   have h1 := D.fuel_linear hwf.wfd
-  have h2 := dStars_le it.d
   cases hi : it.init with
   | none => simp only [IDc.fuel, IDc.ntoks, hi, DeclSkel.ofuel]; omega
   | some e =>
@@ -81,7 +80,6 @@ theorem itemsFuel_linear : ∀ (l : List Item), (∀ it ∈ l, WFItem it) → it
 
 theorem Param.fuel_linear {p : Param} (hwf : WFParam p) : p.fuel ≤ 14 * p.ntoks + 1 := by
   have h1 := D.fuel_linear hwf.wfd
-  have h2 := dStars_le p.d
   have h3 : 1 ≤ p.specs.length := by
     cases hsp : p.specs with
     | nil => exact absurd hsp (sawAfter_ne_nil hwf.sawType)
@@ -103,7 +101,6 @@ theorem Ext.fuel_linear : ∀ (e : Ext), WFExt e → e.fuel ≤ 17 * e.ntoks ∧
   | .fdef f, hw => by
     have hw' : WFFDef f := hw
     have h1 := D.fuel_linear hw'.wfd
-    have h2 := dStars_le f.d
     have h3 := itemsFuel_linear f.body hw'.body
     simp only [Ext.fuel, Ext.ntoks, FDef.fuel, FDef.ntoks]; omega
   | .fdefp f, hw => by
